@@ -31,6 +31,9 @@ CLAIMED = {
  "C11": dict(cat="proof", tech=VX + " (both proof formats, message reconstruction, stake leaf encoding)",
              text="verify() of both proof formats: every reported item is a leaf proven under one single root, nothing else is reported, block number / offset copied; the client's signed message is rebuilt from the verified value; the stake-distribution leaf encoding is checked for injectivity (fails: known finding F-C11-1, replayed on the real code; holds for fixed-length identifiers).",
              note="MKMapProof verify/contains (ckb MMR) and decoding are callee contracts; tx/block leaf encoding injectivity and SHA-256 message match assumed.", ref="§4 C11"),
+ "C16": dict(cat="proof", tech=VX + " (the common verification function the aggregator's authenticator relies on)",
+             text="PARTIAL: MultiSigner::verify_single_signature verified on its extracted text: acceptance implies validity under the key registered at the slot the signature names; the obligation C16 needs - that this slot belongs to the party the submission names - does not follow (known finding F-C16-1, replayed on real keys).",
+             note="Only this function; the aggregator's storing, buffering and publishing paths (async, SQLite) are not decided. mithril-stm verification is a callee contract (C01).", ref="§0.2 C16"),
  "C17": dict(cat="proof", tech=KV + " (full 64-bit domain) + " + VX,
              text="Per-call postconditions of the real beacon functions proved by Kani/CBMC for all 2^192 inputs; the extracted text of the same functions verified by Verus against the mathematical spec, from which monotonicity, whole-step and block-range-boundary clauses are derived as lemmas. time_point_to_signed_entity proved to be a function of its arguments with the beacon callee as contract stub.",
              note="Operator contracts in Verus are exactly those Kani proves on the real impls; std::cmp::max semantics; equal configuration on signer and aggregator is not decided.", ref="§4 C17"),
@@ -48,7 +51,6 @@ NA = {
  "C13": "A convergence property over histories of roll-forward / roll-back / restart against SQLite; the mechanism is SQL executed by an external engine. Contracts on the Rust wrappers would only restate the SQL text.",
  "C14": "Invariant over all interleavings of a five-state async machine, a database and asynchronous signature registration; needs a model or a history explorer - a different family.",
  "C15": "Crash points between persistence steps: a property of process death and restart, not expressible as pre/postcondition of any function that returns.",
- "C16": "The guarantee needs a relation 'party id -> key it registered' that the verifying function does not receive, and the storing path is async + SQLite; a contract would need ghost state spanning registration, two crates' private internals and the database.",
  "C19": "Tar/zstd unpacking, HTTP download, file moves and failure injection on the file system; nothing here is within either verifier's input language, and the property is about directory contents after an I/O sequence.",
 }
 PENDING = {}  # filled below for properties planned but whose check is not committed yet
